@@ -53,6 +53,7 @@ class World(object):
         self.answers_checked = 0
         self.reentries_from_handler = 0
         self.proxy_checks = 0
+        self.dirty_from_own_body = 0
 
 
 def body(fn, key):
@@ -82,6 +83,10 @@ def body(fn, key):
             except UserErr:
                 w.reentries_from_handler += 1
                 reenter_helper(fn, key)
+        if c.get("dirty_self") and not nested:
+            # the body invalidates its own key before it blocks: whoever asks afterwards gets a new execution
+            w.dirty_from_own_body += 1
+            do_dirty(fn, key, c.get("reenter_spelling", 0))
         for i in range(c.get("blocks", 1)):
             w.running.pop()
             try:
@@ -325,8 +330,6 @@ def do_dirty(fn, key, spelling):
     args, kw = spell(key, spelling)
     target(fn).dirty(*args, **kw)
     mk = (fn, key)
-    if mk in w.running:
-        return
     if mk in w.inflight:
         del w.inflight[mk]
         w.dirtied.add(mk)
@@ -344,7 +347,7 @@ def make_script(rnd):
     cfg = {}
     for fn in fnames:
         for k in keys:
-            cfg[repr((fn, k))] = {"blocks": rnd.choice([1, 1, 2, 3]), "fail": rnd.random() < 0.25, "reenter": rnd.random() < 0.2, "reenter_spelling": rnd.randrange(6), "reenter_in_handler": rnd.random() < 0.12}
+            cfg[repr((fn, k))] = {"blocks": rnd.choice([1, 1, 2, 3]), "fail": rnd.random() < 0.25, "reenter": rnd.random() < 0.2, "reenter_spelling": rnd.randrange(6), "reenter_in_handler": rnd.random() < 0.12, "dirty_self": rnd.random() < 0.12}
     actors = []
     for a in range(rnd.randint(2, 6)):
         script = []
@@ -524,6 +527,7 @@ def run_unit(unit, progress):
             inc("reruns_after_dirty", w.after_dirty)
             inc("answers_checked_against_requested_arguments", w.answers_checked)
             inc("reentries_from_an_except_handler", w.reentries_from_handler)
+            inc("dirty_calls_from_the_running_body_itself", w.dirty_from_own_body)
             inc("deduplicated_proxy_checks", w.proxy_checks)
             blocked += w.calls_inflight_blocked
             if viol and not bad:
